@@ -340,6 +340,12 @@ def _xfilter(accumulator, test_range, condition, operating_range):
     from .operators import LOGIC_OPERATORS
     operator, operating_range = '=', np.asarray(operating_range)
     if isinstance(condition, str):
+        if condition in ('<>', '='):  # Bare: the not blank, the blank cells.
+            b = test_range['blank'] ^ (condition == '<>')
+            try:
+                return _accumulate(accumulator, operating_range[b])
+            except FoundError as ex:
+                return ex.err
         for k in LOGIC_OPERATORS:
             if condition.startswith(k) and condition != k:
                 operator, condition = k, condition[len(k):]
